@@ -41,28 +41,14 @@ theorem reachable {fp : FdlParams} (hfp : FpOk fp) {slots : List (Option Periphe
     | hang => rw [hs] at h; cases h
     | refused => rw [hs] at h; cases h
 
-/-- What is known when a request goes out to slot `i`: the peripheral `p` that sent it (slot `i` of
-the state before the poll, up to `retry_count`, which declines of other polls do not touch here),
-its ghost invariant, and the closed form of its `transmit_telegram`. -/
+/-- What is known when a request goes out to slot `i` (see `Dp.send_step`). -/
 theorem send_step {fp : FdlParams} (hfp : FpOk fp) {g g' : G} (hI : Inv fp g) (h8 : Inv8 g)
     {now : Int} {hp : Bool} (h : gstep fp g (.tx now hp) = .ok g')
     {i : Nat} {hd : Header} {pdu : Bytes} (ho : g'.o = .sent i hd pdu) :
     ∃ p p' p0, g.m.slots[i]? = some (some p0) ∧ p = { p0 with retry := p.retry } ∧
       J8 (g.sg i) p ∧ PInv fp p ∧ TxSpec fp .operate p (.send p' hd pdu) ∧
-      g'.sg i = sgSend hd p' (g.sg i) ∧ g'.out = some p0.address := by
-  cases tx_form hfp hI h with
-  | gc => cases ho
-  | idle => cases ho
-  | off => cases ho
-  | send m1 j p p' h' pdu' hD hM1 hc hts _ =>
-    simp only [Out.sent.injEq] at ho
-    obtain ⟨rfl, rfl, rfl⟩ := ho
-    have hj := cur_slot hc
-    obtain ⟨p0, hp0, hsame⟩ := decSlot_back (hD.slot j) hj
-    have h1 := declined_pres hD (fun i p => J8 (g.sg i) p) (fun i p hJ ht => j8_decline hJ ht) h8.slot
-    refine ⟨p, p', p0, hp0, hsame, h1 j p hj, hM1.pinv j p hj, hts, by simp [G.upd], ?_⟩
-    simp only [Option.some.injEq]
-    rw [hsame]
+      g'.sg i = sgSend hd p' (g.sg i) ∧ g'.out = some p0.address :=
+  Dp.send_step hfp hI h8 h ho
 
 /-- `first_is_first`: the first request to a peripheral after start-up, and the first after it was
 declared offline, carries FCV = 0 / FCB = 1. -/
@@ -185,17 +171,6 @@ theorem offline_event_once {fp : FdlParams} (hfp : FpOk fp) {g g' : G} (hI : Inv
     refine ⟨rfl, rfl, rfl, by simp [G.upd, sgOffline], p0, { p with state := .offline, fcb := .first, retry := 0 },
       hp0, by rw [hsame] at hlive; exact hlive, by rw [hsame], ?_, rfl, rfl⟩
     simp only [G.polled, hs, List.getElem?_set, (curSlot_spec hc).2.1, if_true]
-
-theorem reqKind_diag_saps {h : Header} (hk : reqKind h = .diag) : h.dsap = some 60 ∧ h.ssap = some 62 := by
-  unfold reqKind at hk
-  split at hk
-  · split at hk
-    · assumption
-    · split at hk
-      · cases hk
-      · split at hk <;> cases hk
-  · split at hk <;> cases hk
-  · cases hk
 
 /-- Until it answers, an offline peripheral is only probed with diagnostics requests (DSAP 60,
 SSAP 62, no PDU). -/
